@@ -85,7 +85,49 @@ SCHEMAS = {
                    A('R9', 'S', ['X_Id'], '1C', 'V', ['Id'], '1C')],
         'uniques': {'T': [U('I1', 'Id')], 'V': [U('I1', 'Id')], 'S': [U('I1', 'Id')]},
     },
+    # plain, identifying and referential attributes of every core type
+    'valued': {
+        'classes': ['Q', 'P'],
+        'attrs': {'Q': [at('Id', ID), at('Name', 'STRING')],
+                  'P': [at('Id', ID), at('Name', 'STRING'), at('Num', 'INTEGER'), at('Flag', 'BOOLEAN'),
+                        at('Q_Id', ID)]},
+        'assocs': [A('R1', 'P', ['Q_Id'], 'MC', 'Q', ['Id'], '1C')],
+        'uniques': {'Q': [U('I1', 'Id')], 'P': [U('I1', 'Id'), U('I2', 'Name', 'Num')]},
+    },
+    # C10: one plain, one identifying and one referential attribute with two-letter names
+    'spelling': {
+        'classes': ['Lk', 'Kx'],
+        'attrs': {'Lk': [at('Id', ID)], 'Kx': [at('Id', ID), at('Nm', 'STRING'), at('Lk_Id', ID)]},
+        'assocs': [A('R1', 'Kx', ['Lk_Id'], 'MC', 'Lk', ['Id'], '1C')],
+        'uniques': {'Lk': [U('I1', 'Id')], 'Kx': [U('I1', 'Id')]},
+    },
+    # C19: two id slots in one class, plain attributes of other types, a referential attribute
+    'gen19': {
+        'classes': ['H', 'G'],
+        'attrs': {'H': [at('Id', ID), at('Alt', ID)],
+                  'G': [at('Id', ID), at('Nm', 'STRING'), at('Nx', 'INTEGER'), at('H_Id', ID)]},
+        'assocs': [A('R1', 'G', ['H_Id'], 'MC', 'H', ['Id'], '1C')],
+        'uniques': {'H': [U('I1', 'Id')], 'G': [U('I1', 'Id')]},
+    },
+    'reals': {
+        'classes': ['M'],
+        'attrs': {'M': [at('id', ID), at('x', 'REAL'), at('ok', 'BOOLEAN'), at('n', 'INTEGER')]},
+        'assocs': [],
+        'uniques': {'M': [U('I1', 'id')]},
+    },
+    'unknown_type': {
+        'classes': ['W'],
+        'attrs': {'W': [at('Id', ID), at('Odd', 'WEIRD'), at('Late', ID)]},
+        'assocs': [],
+        'uniques': {},
+    },
 }
+SCHEMAS['subsuper']['supertypes'] = [['SUP', 'R6']]
+SCHEMAS['assoc_reflexive']['attrs'] = {'N': [at('Id', ID)], 'E': [at('One_Id', ID), at('Other_Id', ID)]}
+SCHEMAS['assoc_reflexive']['assocs'] = [
+    A('R5', 'E', ['One_Id'], 'MC', 'N', ['Id'], '1', sphrase='one', tphrase='other'),
+    A('R5', 'E', ['Other_Id'], 'MC', 'N', ['Id'], '1', sphrase='other', tphrase='one')]
+SCHEMAS['assoc_reflexive']['uniques'] = {'N': [U('I1', 'Id')], 'E': [U('I1', 'One_Id', 'Other_Id')]}
 
 
 def constants(schema, maxi, genkind='int', userids=()):
@@ -98,4 +140,25 @@ def constants(schema, maxi, genkind='int', userids=()):
         'MaxI': maxi,
         'GenKind': genkind,
         'UserIds': list(userids),
+        'Rank': rank_table(schema),
+        'Vals': {'INTEGER': {'i:0', 'i:7'}, 'STRING': {'s:a'}, 'BOOLEAN': {'b:1'}, 'UNIQUE_ID': {'u:0', 'u:9'}},
+        'Alpha': set(),
     }
+
+
+# value pools used by histories that write attributes (tokens in ascending order per type)
+POOLS = {
+    'INTEGER': ['i:-3', 'i:0', 'i:1', 'i:2', 'i:7'],
+    'STRING': ['s:', 's:A', 's:a', 's:b', 's:bb'],
+    'BOOLEAN': ['b:0', 'b:1'],
+    'REAL': ['r:-1.5', 'r:0.0', 'r:0.5', 'r:2.25'],
+    'UNIQUE_ID': ['u:0'] + ['u:%d' % i for i in range(1, 120)],
+}
+
+
+def rank_table(schema):
+    r = {}
+    for ty, toks in POOLS.items():
+        for k, t in enumerate(toks):
+            r[t] = k
+    return r
